@@ -118,6 +118,8 @@ def check(case, rec):
         ops.append(op)
         if op[0] == 'recompute' and len(op) > 2 and op[2]:
             ops.append([op[0], op[1]])          # the edges recomputed twice in a row (the second call works on the object's own earlier result)
+        if op[0] in ('switch_center', 'np_thresholds') and len(ops) % 2 == 0:
+            ops.append(['recompute', [None, 0.0625][len(ops) % 4 // 2]])      # ... and the edges recomputed right after the edit, before any refit
     for step, op in enumerate(ops):
         kind = op[0]
         history.append(kind)
@@ -525,15 +527,15 @@ def strat_group(draw, tier):
         else:
             shape = draw(st.sampled_from([[1], [2], [3], [1, 2], [2, 2], [2, 1], [3, 2]]))
             ops.append(['fit', shape, draw(st.integers(0, 4)), draw(st.sampled_from([1, 2]))])
-    if draw(st.integers(0, 3)) == 0:
+    if draw(st.integers(0, 2)) == 0:
         # the tuning loop on a group: fit, replace / edit the thresholds (perhaps on a copy of the group), fit the same layout
         # again, recompute the edges
         shape = draw(st.sampled_from([[2], [3], [2, 2], [1, 2]]))
         ops = [['fit', shape, draw(st.integers(0, 4)), 1]]
-        if draw(st.booleans()):
-            ops.append(['clone', draw(st.integers(0, 1))])
-        ops.append(draw(st.sampled_from([['rebind', 1, 0], ['rebind', 1, 4], ['set_threshold', 1, 0.125], ['set_threshold', 3, 0.125]])))
-        if draw(st.booleans()):
+        if draw(st.integers(0, 2)) > 0:
+            ops.append(['clone', draw(st.sampled_from([0, 0, 0, 1]))])
+        ops.append(draw(st.sampled_from([['rebind', 1, 0], ['rebind', 1, 4], ['set_threshold', 1, 0.125], ['set_threshold', 3, 0.125], ['set_threshold', 2, 0.125], ['set_threshold', 4, 0.5]])))
+        if draw(st.integers(0, 2)) == 0:
             ops.append(['fit', shape, draw(st.integers(0, 4)), 1])
         ops.append(['recompute', draw(st.sampled_from([None, 0.05]))])
     return {'fs': band['fs'], 'f_range': band['f_range'], 'signals': signals, 'settings': draw(st_settings(band)), 'ops': ops}
